@@ -138,12 +138,10 @@ Proof.
   destruct a; cbn; intros; try reflexivity; discriminate.
 Qed.
 
-(* A scalar operand reaches the scalar operation as a VALUE of its own element type (so that (array element, scalar) is an
-   ordinary mixed-type pair of the table above).  On the tree before fixes/C07_scalar_operand_value.diff the operation received
-   the scalar as a 0-dim VIEW object; operations written with ?: or common_type (maximum, minimum, power, where) then converted
-   it to the ARRAY's element type first: maximum(int8 array [1], int32 scalar 1000) gave int8(1000) = -24 instead of 1000. *)
-Lemma scalar_operand_as_array_type_refuted :
-  exists (arr scal : dtype) (x k : Z),
-    int_cast (binary_result_dtype CastDefault Arith arr scal) (Z.max x k)
-    <> int_cast (binary_result_dtype CastDefault Arith arr scal) (Z.max x (int_cast arr k)).
-Proof. exists I8, I32, 1%Z, 1000%Z. vm_compute. discriminate. Qed.
+(* A scalar operand reaches the scalar operation as a VALUE of its own element type, so (array element, scalar) is an ordinary
+   mixed-type pair of the table above.  (Before /repo d41ab70 the operation received the scalar as a 0-dim view and maximum /
+   minimum / power / where converted it to the ARRAY's element type first: maximum(int8 [1], int32 1000) gave int8(1000) = -24.) *)
+Lemma scalar_operand_is_a_value :
+  typed_binary CastDefault Z.max I8 I32 1 1000 = 1000%Z
+  /\ typed_binary CastDefault Z.max I8 I32 1 1000 <> typed_binary CastDefault Z.max I8 I32 1 (int_cast I8 1000).
+Proof. split; [reflexivity | vm_compute; discriminate]. Qed.
